@@ -44,11 +44,26 @@ def wrapper_rule(ck, F, rid, name, mode):
     cps = find_calls(F, b, '::checkpoint')
     calls = find_calls(F, b, 'std::ops::FnOnce::call_once')
     rbs = find_calls(F, b, '::rollback')
-    if len(cps) != 1 or len(calls) != 1 or len(rbs) != 1:
+    direct = None
+    if len(cps) == 0 and len(calls) == 1 and len(rbs) == 1:
+        # checkpoint() written out: `let checkpoint = self.bits_read;` - a read of the position field that is made before the closure runs
+        a_ = rbs[0][1]['args'][1]
+        cur = a_; pos = None
+        for _ in range(6):
+            if cur.get('o') not in ('copy', 'move') or cur['p'].get('proj'): break
+            ds = D.defs.get(cur['p']['l'], [])
+            if len(ds) != 1 or ds[0][0] != 'assign' or ds[0][3]['rv']['r'] != 'use': break
+            src = ds[0][3]['rv']['a']
+            if src.get('o') in ('copy', 'move') and src['p']['l'] == 1 and [e['i'] for e in src['p'].get('proj', []) if e['p'] == 'field'] == [F_BITS]:
+                pos = ds[0][1]; break
+            cur = src
+        if pos is not None: direct = pos
+    if (len(cps) != 1 and direct is None) or len(calls) != 1 or len(rbs) != 1:
         ck.violation(rid, key + ' : shape', where_of(b), '%s: expected exactly one checkpoint / closure call / rollback, found %d / %d / %d'
                      % (name, len(cps), len(calls), len(rbs)))
         return
-    (cbb, ct), (fbb, ft), (rbb, rt) = cps[0], calls[0], rbs[0]
+    (fbb, ft), (rbb, rt) = calls[0], rbs[0]
+    cbb = cps[0][0] if cps else direct
     ok = True
     # checkpoint taken before the closure runs, on the same reader
     if not g.dominates(cbb, fbb):
@@ -57,9 +72,9 @@ def wrapper_rule(ck, F, rid, name, mode):
     o = D.origin(ft['args'][1]) if len(ft['args']) > 1 else None
     # rollback's argument is the checkpoint value
     ro = D.origin(rt['args'][1])
-    if not (ro[0] == 'call' and ro[1] == cbb and not ro[3]):
+    if cps and not (ro[0] == 'call' and ro[1] == cbb and not ro[3]):
         ck.violation(rid, key + ' : rollback argument', where_of(b, rbb), '%s: rollback is not given the value returned by checkpoint() (origin %s)' % (name, ro[:2])); ok = False
-    for (bb_, t_) in (cps[0], rbs[0]):
+    for (bb_, t_) in ((cps[0],) if cps else ()) + (rbs[0],):
         so = strip_ref(D.origin(t_['args'][0]))
         if not (so[0] == 'param' and so[1] == 1):
             ck.violation(rid, key + ' : receiver', where_of(b, bb_), '%s: checkpoint/rollback not applied to self' % name); ok = False
